@@ -108,6 +108,7 @@ class Report:
         self.prop = prop
         self.obligations = []
         self._keys = set()
+        self._sites = {}
         self.rules = {}  # rule id -> text
         self.assumptions = []
         self.tables = {}
@@ -122,6 +123,15 @@ class Report:
 
     def add(self, rule, entity, construct, loc, ok, detail="",
             nontrivial=True, path=None):
+        # distinct source sites whose canonical text coincides are numbered
+        # in order of appearance (stable under renaming and line shifts)
+        base = (rule, entity, construct)
+        sites = self._sites.setdefault(base, [])
+        if loc not in sites:
+            sites.append(loc)
+        n = sites.index(loc)
+        if n > 0:
+            construct = f"{construct} #{n + 1}"
         ob = Obligation(rule, entity, construct, loc, ok, detail, nontrivial,
                         path)
         k = ob.key()
